@@ -1,6 +1,7 @@
 package main
 
 import (
+	"bytes"
 	"go/ast"
 	"go/parser"
 	"go/token"
@@ -12,6 +13,7 @@ import (
 	"os"
 	"path/filepath"
 	"regexp"
+	"runtime"
 	"sort"
 	"strconv"
 	"strings"
@@ -237,6 +239,8 @@ type HarnessSpec struct {
 	Procs     int    `json:"procs,omitempty"` // worker processes for cubes
 	PureFP    bool   `json:"purefp,omitempty"` // no lifting of floats: every float operation goes to the solver (FloatingPoint theory)
 	Optional  bool   `json:"optional,omitempty"` // a lemma over unexported functions / fields: when it cannot be stated on the tree (it no longer type-checks) the property is decided by the remaining harnesses
+	Lemma     bool   `json:"lemma,omitempty"`   // the assertions speak about unexported functions: a violated one is a property violation only if it is confirmed through the exported API
+	Confirm   string `json:"confirm,omitempty"` // native-only harness (same input labels) that checks the lemma's counterexample through the exported API
 	Histories bool   `json:"histories,omitempty"` // run twice (vrt.HistoryStep() false / true) and require equal vrt.Observe values
 	index     int    // position in the registry (addresses the entry for cube workers)
 	// known-finding handling: assertions whose message starts with "KF:" are expected-sat
@@ -644,13 +648,22 @@ func (w *World) runCubesParallel(spec HarnessSpec, ro runOpts, procs, ncubes int
 			args = append(args, "-specindex", fmt.Sprint(spec.index), "-cubemod", fmt.Sprint(procs), "-cuberem", fmt.Sprint(r), "-out", out, "-quiet")
 			cmd := exec.Command(ro.self[0], args...)
 			cmd.Stderr = os.Stderr
+			var wout bytes.Buffer
+			cmd.Stdout = &wout
 			err := cmd.Run()
 			var doc struct {
 				Harnesses []HarnessReport `json:"harnesses"`
 			}
 			b, rerr := os.ReadFile(out)
 			if rerr != nil {
-				ch <- res{err: fmt.Errorf("cube worker %d: %v %v", r, err, rerr)}
+				why := strings.TrimSpace(wout.String())
+				if i := strings.LastIndex(why, "\n"); i >= 0 {
+					why = why[i+1:]
+				}
+				if why == "" {
+					why = fmt.Sprint(rerr)
+				}
+				ch <- res{err: fmt.Errorf("cube worker %d: %v: %s", r, err, why)}
 				return
 			}
 			if jerr := json.Unmarshal(b, &doc); jerr != nil || len(doc.Harnesses) != 1 {
@@ -774,6 +787,7 @@ func main() {
 		fmt.Println("usage: symgo run|list ...")
 		os.Exit(2)
 	}
+	go resourceGuard(os.Args[1])
 	switch os.Args[1] {
 	case "run":
 		cmdRun(os.Args[2:])
@@ -791,6 +805,47 @@ func main() {
 	default:
 		fmt.Println("unknown command")
 		os.Exit(2)
+	}
+}
+
+// resourceGuard: a harness whose symbolic execution outgrows memory (or, for a worker process, runs for more
+// than 45 minutes) is abandoned with an inconclusive answer instead of being killed by the system.
+func resourceGuard(cmd string) {
+	memGB := 8.0
+	if v, err := strconv.ParseFloat(os.Getenv("SYMGO_MEM_GB"), 64); err == nil && v > 0 {
+		memGB = v
+	}
+	maxSecs := 2700.0
+	if v, err := strconv.ParseFloat(os.Getenv("SYMGO_WORKER_SECONDS"), 64); err == nil && v > 0 {
+		maxSecs = v
+	}
+	start := time.Now()
+	for {
+		time.Sleep(2 * time.Second)
+		var ms runtime.MemStats
+		runtime.ReadMemStats(&ms)
+		if float64(ms.HeapAlloc) > memGB*1e9 {
+			fatal("resource bound exceeded: the symbolic state of this harness needs more than %.0f GB (SYMGO_MEM_GB); the tree is not decided", memGB)
+		}
+		// the machine is about to run out of memory and this process is one of the big ones: give up before the
+		// kernel picks a victim
+		if float64(ms.HeapAlloc) > 2e9 {
+			if b, err := os.ReadFile("/proc/meminfo"); err == nil {
+				for _, ln := range strings.Split(string(b), "\n") {
+					if strings.HasPrefix(ln, "MemAvailable:") {
+						f := strings.Fields(ln)
+						if len(f) >= 2 {
+							if kb, err := strconv.ParseFloat(f[1], 64); err == nil && kb < 3e6 {
+								fatal("resource bound exceeded: the machine has less than 3 GB of memory left and this harness already holds %.1f GB; the tree is not decided", float64(ms.HeapAlloc)/1e9)
+							}
+						}
+					}
+				}
+			}
+		}
+		if cmd == "run" && time.Since(start).Seconds() > maxSecs {
+			fatal("resource bound exceeded: a harness worker ran for more than %.0f s (SYMGO_WORKER_SECONDS); the tree is not decided", maxSecs)
+		}
 	}
 }
 
